@@ -99,9 +99,12 @@ fn big_case(inp: &[u64]) -> Result<(), String> {
     let mut b = BitVec::new(len);
     let mut ones: Vec<usize> = Vec::new();
     let mut p = rng.below(stride as u64) as usize;
-    while p < len { b.set(p, true); ones.push(p); p += 1 + rng.below(2 * stride as u64) as usize; }
+    // optional fourth entry: the ones stop at that position (the rest of the vector, whole upper blocks included, is zero)
+    let limit = inp.get(3).copied().filter(|&x| x > 0).map(|x| x as usize).unwrap_or(len);
+    let stride = if limit < len { inp[1] as usize } else { stride };
+    while p < len.min(limit) { b.set(p, true); ones.push(p); p += 1 + rng.below(2 * stride as u64) as usize; }
     // a dense burst straddling 2^32
-    for q in ((1usize << 32) - 300)..((1usize << 32) + 300).min(len) { if q % 3 == 0 && !b[q] { b.set(q, true); ones.push(q); } }
+    if limit >= len { for q in ((1usize << 32) - 300)..((1usize << 32) + 300).min(len) { if q % 3 == 0 && !b[q] { b.set(q, true); ones.push(q); } } }
     ones.sort();
     let zero_at = |r: usize| -> usize { // r-th zero by binary search over ones
         let (mut lo, mut hi) = (0usize, len); while lo < hi { let mid = (lo + hi) / 2; let z = mid + 1 - ones.partition_point(|&x| x <= mid); if z > r { hi = mid; } else { lo = mid + 1; } } lo };
@@ -136,7 +139,7 @@ fn big_case(inp: &[u64]) -> Result<(), String> {
 pub fn run(case_name: &str, ctx: &mut Ctx, one: Option<&str>, rng: &mut Rng, budget: usize) {
     if case_name == "select_big" {
         if let Some(s) = one { let inp = parse_list(s); ctx.trial(s, false, || big_case(&inp)); return; }
-        for v in [vec![4096u64, 400_000, 5], vec![1 << 30, 3_000_000, 9]] { if budget < 1000 && v[0] > 5000 { continue; } let s = fmt_list(&v); ctx.trial(&s, false, || big_case(&v)); }
+        for v in [vec![4096u64, 400_000, 5], vec![1 << 30, 3_000_000, 9], vec![(1 << 32) + 4096, 4, 11, 1 << 22], vec![(1 << 32) + 77, 300, 13, (1 << 32) + 5000]] { if budget < 1000 && v[0] > 5000 { continue; } let s = fmt_list(&v); ctx.trial(&s, false, || big_case(&v)); }
         return;
     }
     let inv_mode = case_name == "select_inv";
